@@ -444,6 +444,8 @@ Lemma lits_at_upd (m : mem) b blk : lits_at m -> (length cglobals <= b)%nat -> (
 Proof.
   intros [A B] Hg Hb. pose proof G_meta_lt. pose proof G_rep_lt. split; rewrite mem_upd_other by (try exact Hb; lia); assumption.
 Qed.
+Lemma lits_at_upd2 (m : mem) b blk : lits_at m -> (b <> G_meta /\ b <> G_rep) -> (b < length m)%nat -> lits_at (upd m b blk).
+Proof. intros [A B] [N1 N2] Hb. split; rewrite mem_upd_other by (try exact Hb; congruence); assumption. Qed.
 Lemma lits_at_same (m m' : mem) l : lits_at m -> same_but m m' l -> (forall i, In i l -> (length cglobals <= i)%nat) -> lits_at m'.
 Proof.
   intros [A B] S Hl. pose proof G_meta_lt. pose proof G_rep_lt.
@@ -562,7 +564,7 @@ End ChrLoop.
 (* the default case of ratom_read as a whole: ra->ra = RA_CHR, the run, the copy of the run into a fresh block, *pat += len *)
 Lemma rr_default_ok (m : mem) b c0 c1 rest bl pat bpp o0 d fuel v2 v3 v4 a s' :
   nth_error m b = Some (c0 :: c1 :: rest) -> pat_at m bl pat bpp o0 -> nonul pat -> lits_at m ->
-  b <> bpp -> b <> bl -> bl <> bpp -> (length cglobals <= b)%nat ->
+  b <> bpp -> b <> bl -> bl <> bpp -> (b <> G_meta /\ b <> G_rep) ->
   (length pat + 2 <= fuel)%nat -> (4 <= fuel)%nat -> Z.of_nat (length pat) < 2147483647 ->
   chr_lit (skipn o0 pat) = ReSyntax.Ok (a, s') ->
   exists N st', exec (callf cprog fuel (S d)) fuel rr_default (mkst [VPtr b 0; VPtr bpp 0; v2; v3; v4] m) = ONormal st' /\
@@ -582,7 +584,7 @@ Proof.
   set (m1 := upd m b (VInt 0 :: c1 :: rest)).
   assert (Hs1 : str_at m1 bl pat) by (unfold str_at, m1; mnth; exact Hs).
   assert (Hp1 : nth_error m1 bpp = Some [VPtr bl (Z.of_nat o0)]) by (unfold m1; mnth; exact Hp).
-  assert (Hl1 : lits_at m1) by (apply lits_at_upd; assumption).
+  assert (Hl1 : lits_at m1) by (apply lits_at_upd2; assumption).
   assert (Hb1 : nth_error m1 b = Some (VInt 0 :: c1 :: rest)) by (unfold m1; mnth; reflexivity).
   rewrite <- (Nat.add_0_r o0) in Erun at 2.
   destruct (rr_loop_ok m1 b bpp bl pat o0 d fuel Hs1 H256 Hp1 Hl1 Hf4 _ 0%nat true N v3 v4 fuel Erun eq_refl ltac:(lia) ltac:(rewrite skipn_length; lia))
@@ -639,7 +641,7 @@ Lemma sx_eq_62 : forall c, (c < 256)%N -> (sx c =? 62) = (c =? 62)%N.  Proof. by
 
 Theorem tr_ratom_read (m : mem) b c0 rest bl pat bpp o d fuel a s' :
   nth_error m b = Some (c0 :: VInt 0 :: rest) -> pat_at m bl pat bpp o -> nonul pat -> lits_at m ->
-  b <> bpp -> b <> bl -> bl <> bpp -> (length cglobals <= b)%nat -> (length cglobals <= bpp)%nat ->
+  b <> bpp -> b <> bl -> bl <> bpp -> (b <> G_meta /\ b <> G_rep) -> (length cglobals <= bpp)%nat ->
   (length pat + 2 <= fuel)%nat -> (4 <= fuel)%nat -> Z.of_nat (length pat) < 2147483647 ->
   ReParse.ratom_read (skipn o pat) = ReSyntax.Ok (a, s') ->
   exists o' m', callf cprog fuel (S (S (S d))) F_ratom_read [VPtr b 0; VPtr bpp 0] m = Ok (VUndef, m') /\
